@@ -629,6 +629,9 @@ func c11PendingConnect(c *run.Ctx, kind int) {
 	}
 	var reqs []*c11Req
 	n := 2 + c.Rng.Intn(7)
+	if failKind == 3 {
+		n = 4 + c.Rng.Intn(5)
+	}
 	pinged := false
 	for i := 0; i < n; i++ {
 		r := &c11Req{Kind: []string{"subscribe", "unsubscribe", "ping", "publish"}[c.Rng.Intn(4)]}
@@ -639,9 +642,12 @@ func c11PendingConnect(c *run.Ctx, kind int) {
 			pinged = true
 		}
 		var quit <-chan struct{}
-		if c.Rng.Intn(2) == 0 {
+		if c.Rng.Intn(2) == 0 || failKind == 3 && i < 4 {
 			r.Quit = make(chan struct{})
 			quit = r.Quit
+		}
+		if failKind == 3 && i < 4 && r.Kind == "publish" {
+			r.Kind = []string{"subscribe", "unsubscribe"}[i%2] // requests with identifiers
 		}
 		f := fmt.Sprintf("pc/%d", i)
 		switch r.Kind {
